@@ -422,6 +422,13 @@ pub struct World {
     /// Some(k): the first k thread creations succeed, then the OS refuses
     #[serde(default)]
     pub threads_refused_after: Option<u32>,
+    /// environment variables that read differently in the receiving process (discovered at run
+    /// time: whatever the receiver asked getenv for); only honoured by the child-process receiver
+    #[serde(default)]
+    pub env_flip: Vec<String>,
+    /// Some(errno): the receiving process's stdout / stderr cannot be written
+    #[serde(default)]
+    pub stdio_broken: Option<i32>,
 }
 
 fn yes() -> bool {
@@ -474,13 +481,21 @@ pub fn child_main() -> i32 {
         let z = libc::rlimit { rlim_cur: 0, rlim_max: 0 };
         libc::setrlimit(libc::RLIMIT_CORE, &z);
     }
+    let broken = w.stdio_broken;
     let say = |s: &str| {
-        let o = std::io::stdout();
-        let mut o = o.lock();
-        let _ = writeln!(o, "STAGE {s}");
-        let _ = o.flush();
+        // the stage protocol itself must get through: stdio is only broken for the code under test
+        seams::break_stdio(None);
+        {
+            let o = std::io::stdout();
+            let mut o = o.lock();
+            let _ = writeln!(o, "STAGE {s}");
+            let _ = o.flush();
+        }
+        seams::break_stdio(broken);
     };
     seams::reset_world();
+    seams::enter_party_env(w.env_flip.clone());
+    seams::break_stdio(broken);
     // rebuild the damaged message exactly as the parent did
     let Some(msg) = damaged_message(&w) else { return 0 };
     let small_inputs = |parties: &[usize]| circ_ref::total_bits(parties).map(|b| b <= MAX_EVAL_BITS).unwrap_or(false);
@@ -1586,7 +1601,7 @@ pub fn stream_len(family: &str) -> usize {
 
 fn draw_world(plan: &CasePlan, family: &str, idx: u64, keys: Keys, p: &mut Prng) -> World {
     let dedup = p.chance(3, 4);
-    let mut w = World { program: None, dedup, keys, channel: Channel::JsonSsa, faults: vec![], raw_message: None, prior: vec![], no_threads: false, threads_refused_after: None };
+    let mut w = World { program: None, dedup, keys, channel: Channel::JsonSsa, faults: vec![], raw_message: None, prior: vec![], no_threads: false, threads_refused_after: None, env_flip: vec![], stdio_broken: None };
     match family {
         "honest" => {
             // compiler / converter outputs must be accepted (fault-free channel)
@@ -1749,6 +1764,27 @@ pub fn run_case(plan: &CasePlan, seed: u64, idx: u64) -> CaseResult {
         }
         let obs = run_worlds(w.keys, &stream);
         absorb_batch(&obs, &stream, &mut acc);
+    }
+    // environment discovery: if the receiver asked for environment variables, receive the honest
+    // message once more in a fresh process in which they read differently, with and without a
+    // working stdout/stderr
+    let asked = seams::take_env_queries();
+    if std::env::var("VERIF_DEBUG_ENV").is_ok() {
+        eprintln!("env asked: {asked:?}");
+    }
+    *acc.counters.entry("environment_variables_asked_for".into()).or_insert(0) += asked.len() as u64;
+    if !asked.is_empty() && w.program.is_some() {
+        for stdio in [None, Some(libc::EPIPE)] {
+            for ch in [Channel::JsonSsa, Channel::JsonReg] {
+                let mut w2 = World { faults: vec![], prior: vec![], channel: ch, ..w.clone() };
+                w2.env_flip = asked.clone();
+                w2.stdio_broken = stdio;
+                let mut o = Obs::default();
+                huge_via_child(&w2, if ch == Channel::JsonSsa { "ssa" } else { "reg" }, &mut o);
+                bump(&mut o.counters, "environment_flipped_receivers");
+                absorb(&o, &w2, &mut acc);
+            }
+        }
     }
     acc.d.u64(p.draws);
     *acc.counters.entry("damaged_circuits_accepted_and_evaluated".into()).or_insert(0) += acc.accepted_damaged;
